@@ -426,7 +426,12 @@ fn enc_sweep(cx: &mut Ctx) {
             let off = (cx.seed as u32) % astral_stride;
             let mut lo = 0x10000u32;
             while lo < 0x110000 {
-                ranges.push((lo, lo + 0x8000, astral_stride, off));
+                // Big5 is the only encoder with a sparse astral repertoire (all of it in plane 2): never thinned there
+                if *name == "Big5" && (0x20000..0x30000).contains(&lo) {
+                    ranges.push((lo, lo + 0x8000, 1, 0));
+                } else {
+                    ranges.push((lo, lo + 0x8000, astral_stride, off));
+                }
                 lo += 0x8000;
             }
             for (lo, hi, stride, off) in ranges {
